@@ -1172,7 +1172,7 @@ define_operator!(void, "void");
 
 // `**` is not supported
 
-define_operator!(multiply, "*", ["*", "/", "="]);
+define_operator!(multiply, "*", ["*", "="]);
 define_operator!(divide, "/", ["*", "/", "="]);
 define_operator!(remainer, "%", ["="]);
 
